@@ -21,6 +21,14 @@ def run(seed):
         subprocess.run(["git", "-C", "/repo", "worktree", "add", "-q", "--detach", wt, "HEAD"], check=True, capture_output=True)
         r = subprocess.run(["git", "-C", wt, "apply", os.path.join(d, "patch.diff")], capture_output=True, text=True)
         if r.returncode != 0:
+            # a change ported by hand to the current tree (patch.rebased-<commit>.diff) is used instead
+            import glob
+            for alt in sorted(glob.glob(os.path.join(d, "patch.rebased-*.diff"))):
+                r = subprocess.run(["git", "-C", wt, "apply", alt], capture_output=True, text=True)
+                if r.returncode == 0:
+                    res["note"] = "rebased patch " + os.path.basename(alt)
+                    break
+        if r.returncode != 0:
             res["status"] = "patch does not apply to the current tree"
             return res
         env = dict(os.environ, VERIF_REPO=wt, VERIF_EVIDENCE_DIR=os.path.join(wt, ".ev"), VERIF_TIER=tier)
